@@ -99,6 +99,9 @@ def seq_monitor(scn, sobj, rep, sf, ck):
                 sent = sum(len(x) for x in itr[0]) + sum(len(x) for x in itr[1])
                 if sent >= 6:
                     rep.nontrivial((sid, sent))
+                if len(rep.samples) < 2:
+                    rep.sample(dict(scenario=sid, interleaving="".join(str(t) for t in so.meta["order"])[:80],
+                                    port_events=sent, verdict="both traces equal their solo traces"))
         ent["inter"] = []
 
 
@@ -164,6 +167,10 @@ def run_threads(ctx, nproc, rounds):
                 rep.count("tsan_reports_outside_core")
         if rc not in (0, 96) and "ThreadSanitizer" not in err:
             rep.inconclusive.append("vh_threads process %d exited %d: %s" % (i, rc, err[-300:]))
+    if results:
+        i0, rc0, out0, err0 = results[0]
+        rep.sample(dict(threads_process=i0, stats=dict(re.findall(r"STAT (\S+) (\d+)", out0)),
+                        first_tsan_report=(err0.split("==================")[1][:600] if "==================" in err0 else None)))
     for k2, txt in races.items():
         rep.violation(k2, "ThreadSanitizer, two threads serving one interface each:\n%s" % txt[:2500])
     rep.need("thread_rounds", rep.counters.get("thread_rounds", 0), nproc * rounds)
